@@ -44,7 +44,7 @@ const repoModule = "github.com/thanos-io/thanos"
 func loadEngine(repo string, pkgPatterns []string, extraContractFiles []string) (*Engine, error) {
 	cfg := &packages.Config{
 		Mode: packages.NeedName | packages.NeedFiles | packages.NeedCompiledGoFiles | packages.NeedImports |
-			packages.NeedTypes | packages.NeedTypesSizes | packages.NeedSyntax | packages.NeedTypesInfo | packages.NeedDeps,
+			packages.NeedTypes | packages.NeedTypesSizes | packages.NeedSyntax | packages.NeedTypesInfo,
 		Dir:        repo,
 		BuildFlags: []string{"-tags=slicelabels,verif"},
 	}
@@ -125,7 +125,10 @@ func (e *Engine) addContractFile(file, pkgPath string) error {
 	for _, g := range cf.Ghosts {
 		e.ghosts[g.Name] = g
 	}
-	e.lemmas = append(e.lemmas, cf.Lemmas...)
+	for _, l := range cf.Lemmas {
+		l.Pkg = pkgPath
+		e.lemmas = append(e.lemmas, l)
+	}
 	e.axioms = append(e.axioms, cf.Axioms...)
 	return nil
 }
@@ -286,7 +289,7 @@ var pureAllow = []string{
 	"github.com/prometheus/prometheus/model/labels.", "(github.com/prometheus/prometheus/model/labels", "hash/", "github.com/cespare/xxhash", "(*github.com/cespare/xxhash",
 	"(log/slog", "log/slog", "unicode/utf8.", "encoding/binary.", "(encoding/binary",
 	"github.com/thanos-io/thanos/pkg/errors.", "github.com/thanos-io/thanos/pkg/runutil.", "(*sync.Mutex)", "(*sync.RWMutex)", "(*sync.WaitGroup)", "(*sync.Once)",
-	"(*sync/atomic", "sync/atomic.", "(*github.com/efficientgo/core/errors", "github.com/efficientgo/core/errors", "func value",
+	"(*sync/atomic", "sync/atomic.", "text/template.", "(*text/template", "(*github.com/prometheus/prometheus/model/labels.Builder)", "(*github.com/efficientgo/core/errors", "github.com/efficientgo/core/errors", "func value",
 }
 
 func (e *Engine) assumedPure(key string) bool {
